@@ -106,6 +106,10 @@ type Instance struct {
 	// servers is the list of servers with their listeners
 	servers []ServerListener
 
+	// running is set (under instancesMu) once the instance has been
+	// started completely; a reload signal leaves alone what is still starting
+	running bool
+
 	// these callbacks execute when certain events occur
 	OnFirstStartup  []func() error // starting, not as part of a restart
 	OnStartup       []func() error // starting, even as part of a restart
@@ -590,6 +594,9 @@ func startWithListenerFds(cdyfile Input, inst *Instance, restartFds map[string]r
 	mu.Unlock()
 
 	completed = true
+	instancesMu.Lock()
+	inst.running = true
+	instancesMu.Unlock()
 	return nil
 }
 
